@@ -1,25 +1,31 @@
-(* PropC11.v — C11: open terminates and reports I/O failures during recovery. fired p c = the fp_nth-th call of the plan's site (read_dir / open / read) has been made.
+(* PropC11.v — C11: open terminates and reports I/O failures during recovery. fired p c = the fp_nth-th call of the plan's site (read_dir / open / read) has been made. reportable p = not (site Read and kind UnexpectedEof): read_block maps an UnexpectedEof from read_exact to "no more blocks in this file", so such a fault is absorbed as end-of-file at every read except the first one of recovery (C11_absorbed_eof_only_first_read).
    Statements only; each theorem is closed by `exact <lemma>`; proofs live in the imported files. *)
 From Coq Require Import Lia NArith List.
 From MRL Require Import Bytes Params Names Frame Record Mem Rolling Log OpenTerm OpenIo.
 
 (* if open returns a log, the injected failure was never reached *)
 Theorem C11_ok_means_not_fired :
-    forall (P : params) (p : fplan) (fs : fsT) (pol : policy) (hint : list bytes) (st : state),
+    forall (P : params) (p : fplan),
+    reportable p ->
+    forall (fs : fsT) (pol : policy) (hint : list bytes) (st : state),
     L_IO P = false -> open P fs (Some p) pol hint = OpenOk st -> ~ fired p (w_ctx (s_wr st)).
 Proof. exact open_reports_io. Qed.
 Print Assumptions C11_ok_means_not_fired.
 
 (* nor is an I/O failure ever reported as Corruption *)
 Theorem C11_corruption_means_not_fired :
-    forall (P : params) (p : fplan) (fs : fsT) (pol : policy) (hint : list bytes) (c : ioctx),
+    forall (P : params) (p : fplan),
+    reportable p ->
+    forall (fs : fsT) (pol : policy) (hint : list bytes) (c : ioctx),
     L_IO P = false -> open P fs (Some p) pol hint = OpenCorruption c -> ~ fired p c.
 Proof. exact open_reports_io_corruption. Qed.
 Print Assumptions C11_corruption_means_not_fired.
 
 (* all four outcomes: Ok / Corruption only if not fired, never out of fuel: a reached failure is an I/O error, promptly *)
 Theorem C11_fired_is_io :
-    forall (P : params) (p : fplan) (fs : fsT) (pol : policy) (hint : list bytes),
+    forall (P : params) (p : fplan),
+    reportable p ->
+    forall (fs : fsT) (pol : policy) (hint : list bytes),
     L_IO P = false ->
     7 < BS P ->
     match open P fs (Some p) pol hint with
@@ -30,4 +36,25 @@ Theorem C11_fired_is_io :
     end.
 Proof. exact open_fired_is_io. Qed.
 Print Assumptions C11_fired_is_io.
+
+(* the excluded plans (site Read, kind UnexpectedEof): the injected kind reaches the caller of open only through the first read of recovery (RollingReader::open); every later firing is absorbed as end-of-file of the file being read *)
+Theorem C11_absorbed_eof_only_first_read :
+    forall (P : params) (p : fplan),
+    absorbed p ->
+    forall (fs : fsT) (pol : policy) (hint : list bytes) (c : ioctx),
+    open P fs (Some p) pol hint = OpenIo IoUnexpectedEof c ->
+    rd_open P (ctx_init fs (Some p)) = (c, Err IoUnexpectedEof).
+Proof. exact open_absorbed_eof_only_first_read. Qed.
+Print Assumptions C11_absorbed_eof_only_first_read.
+
+(* a fault of an excluded plan that fires at a read is a short read at an unchanged position *)
+Theorem C11_absorbed_read_is_short_read :
+    forall (P : params) (p : fplan),
+    absorbed p ->
+    forall (c : ioctx) (n pos : N) (c1 : ioctx) (e : ioerr),
+    planned p c ->
+    fault_point c SRead = (c1, Some e) ->
+    read_block P c n pos = (ctx_ev c1 (EvRead (filename n) pos (BS P) false), pos, Ok None).
+Proof. exact read_block_absorbed. Qed.
+Print Assumptions C11_absorbed_read_is_short_read.
 
